@@ -1371,6 +1371,180 @@ def fw_depth(f):
     return 0 if f.kind == "W" else 1 + max([fw_depth(v) for _, v in f.items] + [0])
 
 
+FW_KEY_MAX = 1024      # YAML 1.2.2 7.4.2: the implicit key of a single pair inside a flow SEQUENCE (key_max of Spec/FlowText.v)
+
+
+def fw_first_long_key(f, off=0):
+    """offset (in characters) of the ':' behind the first single-pair key of a flow SEQUENCE that is longer than 1024
+    characters, in text order; None if there is none (then the node is in the class of the theorems).  Keys of '{ }' pairs
+    are not limited."""
+    if f.kind == "W":
+        return None
+    off += 1
+    for i, (k, v) in enumerate(f.items):
+        if i:
+            off += 2
+        if k is not None:
+            if f.kind == "S" and len(k) > FW_KEY_MAX:
+                return off + len(k)
+            off += len(k) + 2
+        r = fw_first_long_key(v, off)
+        if r is not None:
+            return r
+        off += len(fw_render(v))
+    return None
+
+
+def fw_keylimit(rng):
+    """a collection with one key of about 1024 characters, as a single pair of a flow sequence or as a key of a flow mapping,
+    at a random place and depth"""
+    n = rng.choice([1000, 1023, 1024, 1024, 1025, 1025, 1026, 1100, 2100])
+    key = "".join(rng.choice(FW_CHARS) for _ in range(n))
+    kind = rng.choice(["S", "S", "M"])
+    items = []
+    for _ in range(rng.choice([0, 0, 1, 2])):
+        items.append(((fw_word(rng, False) if kind == "M" or rng.random() < 0.4 else None), fw_node(rng, 1, 2, False)))
+    items.insert(rng.randrange(len(items) + 1), (key, fw_node(rng, 1, rng.choice([1, 2, 3]), False)))
+    f = FNode(kind, items=items)
+    for _ in range(rng.choice([0, 0, 1, 2, 3])):
+        r = rng.random()
+        sib = [(None, fw_node(rng, 1, 2, False)) for _ in range(rng.choice([0, 1, 2]))]
+        if r < 0.45:
+            sib.insert(rng.randrange(len(sib) + 1), (None, f))
+            f = FNode("S", items=sib)
+        elif r < 0.7:
+            sib = [(k if k is not None or rng.random() < 0.5 else fw_word(rng, False), v) for k, v in sib]
+            sib.insert(rng.randrange(len(sib) + 1), (fw_word(rng, False), f))
+            f = FNode("S", items=sib)
+        else:
+            sib = [(fw_word(rng, False), v) for _, v in sib]
+            sib.insert(rng.randrange(len(sib) + 1), (fw_word(rng, False), f))
+            f = FNode("M", items=sib)
+    return f
+
+
+# ------------------------------------------------------------------------------------------------
+# (e) the block text sub-language of coq/Spec/BlockText.v (the class of C03_block_text_tokens / C03_block_text_events)
+# ------------------------------------------------------------------------------------------------
+class BNode:
+    """kind 'W' (text), 'S' (place, items: BNode), 'M' (place, items: (key text, BNode)), 'I' (items: BNode; an indentless
+    sequence: the value of a key, on the lines below at the key's column); place: None = compact (on the line of its '-'),
+    d = on the lines below, 1 + d columns right of its parent"""
+    __slots__ = ("kind", "text", "place", "items")
+
+    def __init__(self, kind, text=None, place=None, items=None):
+        self.kind, self.text, self.place, self.items = kind, text, place, items
+
+
+def bt_word(rng, key=False):
+    n = rng.choice([1, 1, 1, 2, 3, 5, 9])
+    r = rng.random()
+    if r < 0.02:
+        n = rng.choice([126, 127, 128, 129, 254, 255, 300])      # around the chunk size of the plain-scalar loop
+    elif key and r < 0.03:
+        n = rng.choice([1000, 1023, 1024, 1024])                 # up to the limit of an implicit key
+    return "".join(rng.choice(FW_RARE) if rng.random() < 0.03 else rng.choice(FW_CHARS) for _ in range(n))
+
+
+def bt_node(rng, depth, max_depth, inl):
+    if depth >= max_depth or rng.random() < 0.4:
+        return BNode("W", text=bt_word(rng))
+    place = None if (inl and rng.random() < 0.5) else rng.choice([0, 0, 0, 1, 2, 5])
+    n = rng.choice([1, 1, 2, 2, 3, 4])
+    if not inl and rng.random() < 0.3:
+        return BNode("I", items=[bt_node(rng, depth + 1, max_depth, True) for _ in range(n)])
+    if rng.random() < 0.5:
+        return BNode("S", place=place, items=[bt_node(rng, depth + 1, max_depth, True) for _ in range(n)])
+    return BNode("M", place=place, items=[(bt_word(rng, True), bt_node(rng, depth + 1, max_depth, False)) for _ in range(n)])
+
+
+def bt_coll(rng, max_depth):
+    while True:
+        f = bt_node(rng, 0, max_depth, True)
+        if f.kind not in "WI":
+            return f
+
+
+def bt_chain(rng, depth):
+    """a chain of nested block collections of the given depth (the block-nesting limit is 255)"""
+    f = BNode("W", text="x")
+    for i in range(depth):
+        r = rng.random()
+        if r < 0.35:
+            f = BNode("S", place=None, items=[f])              # compact: becomes '- - - x'
+        elif r < 0.6:
+            f = BNode("S", place=rng.choice([0, 0, 1]), items=[f])
+        else:
+            f = BNode("M", place=rng.choice([0, 0, 1]), items=[("k", f)])
+    for g in bt_walk(f):                                       # a compact collection is allowed only as an item of a sequence
+        if g.kind == "M":
+            for _, v in g.items:
+                if v.kind != "W" and v.place is None:
+                    v.place = 0
+    return f
+
+
+def bt_walk(f):
+    yield f
+    if f.kind in "SI":
+        for v in f.items:
+            yield from bt_walk(v)
+    elif f.kind == "M":
+        for _, v in f.items:
+            yield from bt_walk(v)
+
+
+def bt_render(col, f):
+    """the text of f from its first character on, which stands at column col; written independently of coq/Spec/BlockText.v:
+    l+block-sequence [183] / l+block-mapping [187] with compact forms [185] / [195] and one-word plain scalars"""
+    if f.kind == "W":
+        return f.text + "\n"
+
+    def child(v):
+        if v.kind == "I":                                      # [201] seq-space(n, block-out) = n - 1: not indented
+            return "\n" + " " * col + bt_render(col, v)
+        if v.kind == "W" or v.place is None:
+            return " " + bt_render(col + 2, v)
+        return "\n" + " " * (col + 1 + v.place) + bt_render(col + 1 + v.place, v)
+    if f.kind in "SI":
+        parts = ["-" + child(v) for v in f.items]
+    else:
+        parts = [k + ":" + child(v) for k, v in f.items]
+    return parts[0] + "".join(" " * col + x for x in parts[1:])
+
+
+def bt_case(f):
+    if f.kind == "W":
+        return "W " + cps(f.text)
+    if f.kind == "I":
+        return "I %d %s" % (len(f.items), " ".join(bt_case(v) for v in f.items))
+    pl = "-" if f.place is None else str(f.place)
+    if f.kind == "S":
+        return "S %s %d %s" % (pl, len(f.items), " ".join(bt_case(v) for v in f.items))
+    return "M %s %d %s" % (pl, len(f.items), " ".join("%s %s" % (cps(k), bt_case(v)) for k, v in f.items))
+
+
+def bt_tree(f):
+    """the abstract node the text denotes (for events_of)"""
+    if f.kind == "W":
+        return sc(f.text)
+    if f.kind in "SI":
+        return Node("Q", flow=False, items=[bt_tree(v) for v in f.items])
+    return Node("M", flow=False, items=[(sc(k), bt_tree(v)) for k, v in f.items])
+
+
+def bt_depth(f):
+    if f.kind == "W":
+        return 0
+    if f.kind == "I":                                          # no collection of its own for the scanner
+        return max(bt_depth(v) for v in f.items)
+    return 1 + max(bt_depth(v if f.kind == "S" else v[1]) for v in f.items)
+
+
+def bt_long_key(f):
+    return any(g.kind == "M" and any(len(k) > FW_KEY_MAX for k, _ in g.items) for g in bt_walk(f))
+
+
 # ------------------------------------------------------------------------------------------------
 # the check
 # ------------------------------------------------------------------------------------------------
@@ -1684,6 +1858,8 @@ def check_C03(tier, seed):
             fws.append(fw_chain(frng, d))
         for _ in range(20 if quick else 200):            # lines longer than the simple-key limit (1024)
             fws.append(FNode("S", items=[(None, fw_coll(frng, 3, False)) for _ in range(frng.choice([40, 80, 160]))]))
+        for _ in range(300 if quick else 5000):          # keys around the 1024-character limit of a flow-sequence single pair
+            fws.append(fw_keylimit(frng))
         fw_lines = [fw_case(f) for f in fws]
         fw_text = [fw_render(f) + "\n" for f in fws]
         fw_spec = run_mx(["flow"], fw_lines, tag="C03")
@@ -1693,14 +1869,46 @@ def check_C03(tier, seed):
         fw_model = run_mx(["events", "str"], fw_enc)
         fw_ok = 0
         deepest = longest = 0
+        fw_limit = dict(pair_key_1024_in_sequence=0, pair_key_longer_in_sequence_rejected=0, key_longer_in_mapping=0)
         for j, (f, case, text, spec, it, code) in enumerate(zip(fws, fw_lines, fw_text, fw_spec, fw_impl_t, fw_enc)):
             res.evaluations += 1
             parts = spec.split("|")
             head = parts[0].split(" ")
-            if len(parts) != 4 or head[:2] != ["1", "1"] or int(head[2]) != fw_depth(f) or fw_depth(f) > 255:
-                res.add_tie_break("flow text: a generated node is outside the class of the theorem (fwf, is_coll, depth = %s)" % parts[0],
+            long_at = fw_first_long_key(f)
+            if (len(parts) != 4 or len(head) != 4 or head[0] != ("1" if long_at is None else "0") or head[1] != "1" or head[3] != "1"
+                    or int(head[2]) != fw_depth(f) or fw_depth(f) > 255):
+                res.add_tie_break("flow text: a generated node is outside the class of the theorem, or fwf of coq/Spec/FlowText.v is not "
+                                  "'fgram and no single-pair key of a flow sequence longer than 1024 characters' "
+                                  "(fwf, is_coll, depth, fgram = %s; over-long key: %s)" % (parts[0], long_at is not None),
                                   case=case[:300], out=spec[-300:])
                 continue
+            if long_at is not None:
+                # outside the class by the key limit alone: C03_flow_long_key_rejected (first entry of the root) / fetch_value of the
+                # model in general: error at the ':' behind the first over-long key; the implementation must reject it there, too
+                want = "ERR@%d:1:%d" % (long_at, long_at)
+                _, tfin = split_line(it)
+                fins = [tfin] + [split_line(fw_impl[bk][j])[1] for bk in ("str", "iter")]
+                if any(core.fin_pos(x) != want for x in fins):
+                    res.add_violation("flow text: a single pair of a flow sequence whose key is longer than 1024 characters is not "
+                                      "rejected at its ':' (YAML 1.2.2 7.4.2; /repo 57aa316)",
+                                      dict(input=text[:2200], codepoints=code, case=case[:600]),
+                                      got=" / ".join(x[:80] for x in fins), expected=want)
+                elif core.fin_pos(split_line(fw_model[j])[1]) != want:
+                    res.add_tie_break("flow text: the model pipeline does not reject an over-long flow-sequence pair key where the "
+                                      "implementation does", case=text[:300], model=fw_model[j][-200:], expected=want)
+                else:
+                    fw_limit["pair_key_longer_in_sequence_rejected"] += 1
+                    fw_ok += 1
+                continue
+            for kk in ("S", "M"):
+                def keys(g, kk=kk):
+                    return [] if g.kind == "W" else ([len(k) for k, _ in g.items if k is not None and g.kind == kk]
+                                                     + [x for _, v in g.items for x in keys(v)])
+                ks = keys(f)
+                if kk == "S" and FW_KEY_MAX in ks:
+                    fw_limit["pair_key_1024_in_sequence"] += 1
+                if kk == "M" and any(x > FW_KEY_MAX for x in ks):
+                    fw_limit["key_longer_in_mapping"] += 1
             if parts[1] != code:
                 res.add_tie_break("flow text: render of coq/Spec/FlowText.v differs from the text written by the check", case=case[:300],
                                   coq=parts[1][-300:], check=code[-300:])
@@ -1735,7 +1943,94 @@ def check_C03(tier, seed):
                 fw_ok += 1
                 if len(exp_ev) >= 9:
                     res.nontrivial.add(text)
-        res.coverage["flow_text"] = dict(nodes=len(fws), tokens_and_events_agree=fw_ok, deepest=deepest, longest_text=longest)
+        res.coverage["flow_text"] = dict(nodes=len(fws), tokens_and_events_agree=fw_ok, deepest=deepest, longest_text=longest,
+                                         key_limit=fw_limit)
+        # ---------------- (e) the block text sub-language of the scanner theorems, on the implementation ----------------
+        n_bt = 6000 if quick else 100000
+        brng = gen.rng_for(seed, PID + "-blocktext")
+        bts = [bt_coll(brng, brng.choice([1, 2, 3, 4, 6])) for _ in range(n_bt)]
+        for d in ([1, 2, 3, 100, 254, 255] if quick else list(range(1, 256))):
+            bts.append(bt_chain(brng, d))
+        for _ in range(40 if quick else 400):                  # a key just over the limit: outside the class, must be rejected
+            f = bt_coll(brng, 3)
+            ms = [g for g in bt_walk(f) if g.kind == "M"]
+            if ms:
+                g = brng.choice(ms)
+                i = brng.randrange(len(g.items))
+                g.items[i] = ("".join(brng.choice(FW_CHARS) for _ in range(brng.choice([1025, 1026, 1500]))), g.items[i][1])
+            bts.append(f)
+        bt_lines = [bt_case(f) for f in bts]
+        bt_text = [bt_render(0, f) for f in bts]
+        bt_spec = run_mx(["block"], bt_lines, tag="C03")
+        bt_enc = [enc(t) for t in bt_text]
+        bt_impl_t = run_hx(["tokens"], bt_enc)
+        bt_impl = {b: run_hx(["events", b], bt_enc) for b in ("str", "iter")}
+        # the extracted model pipeline (not tail recursive) runs on the texts of up to 12 000 characters only; the implementation is
+        # checked against the extracted specification on all of them
+        bt_small = [j for j, t in enumerate(bt_text) if len(t) <= 12000]
+        bt_model = dict(zip(bt_small, run_mx(["events", "str"], [bt_enc[j] for j in bt_small])))
+        bt_ok = bt_rej = 0
+        bdeepest = blongest = 0
+        for j, (f, case, text, spec, it, code) in enumerate(zip(bts, bt_lines, bt_text, bt_spec, bt_impl_t, bt_enc)):
+            res.evaluations += 1
+            parts = spec.split("|")
+            head = parts[0].split(" ")
+            long_key = bt_long_key(f)
+            if (len(parts) != 4 or len(head) != 2 or head[0] != ("0" if long_key else "1") or int(head[1]) != bt_depth(f)
+                    or bt_depth(f) > 255):
+                res.add_tie_break("block text: a generated node is outside the class of the theorem (bwf_root, bdepth = %s; over-long "
+                                  "key: %s)" % (parts[0], long_key), case=case[:300], out=spec[-300:])
+                continue
+            if parts[1] != code:
+                res.add_tie_break("block text: brender of coq/Spec/BlockText.v differs from the text written by the check",
+                                  case=case[:300], coq=parts[1][-300:], check=code[-300:])
+                continue
+            if long_key:
+                fins = [split_line(it)[1]] + [split_line(bt_impl[bk][j])[1] for bk in ("str", "iter")]
+                if not all(x.startswith("ERR@") for x in fins):
+                    res.add_violation("block text: an implicit key of a block mapping longer than 1024 characters is not rejected "
+                                      "(YAML 1.2.2 ns-s-implicit-yaml-key)", dict(input=text[:2200], codepoints=code, case=case[:600]),
+                                      got=" / ".join(x[:80] for x in fins))
+                elif j in bt_model and core.fin_pos(split_line(bt_model[j])[1]) != core.fin_pos(fins[1]):
+                    res.add_tie_break("block text: the model pipeline does not reject an over-long block key where the implementation "
+                                      "does", case=text[:300], model=bt_model[j][-200:], impl=fins[1][:200])
+                else:
+                    bt_rej += 1
+                continue
+            exp_ev = events_of([bt_tree(f)], [False])
+            if parts[3] != ";".join(exp_ev):
+                res.add_tie_break("block text: events_of (blt n) of the Coq specification differs from the events computed by the check",
+                                  case=case[:300], coq=parts[3][-300:], check=";".join(exp_ev)[-300:])
+                continue
+            bdeepest, blongest = max(bdeepest, bt_depth(f)), max(blongest, len(text))
+            good = True
+            toks, tfin = split_line(it)
+            got_t = ";".join(ev_nospan(t) for t in toks)
+            if tfin != "END" or got_t != parts[2]:
+                good = False
+                res.add_violation("block text (class of C03_block_text_tokens): the scanner's tokens are not the tokens of the layout "
+                                  "tree the text denotes", dict(input=text[:2000], codepoints=code, case=case[:600]),
+                                  got=got_t[-600:] + "|" + tfin, expected=parts[2][-600:])
+            for bk in ("str", "iter"):
+                g, fin = strip_line(bt_impl[bk][j])
+                if fin != "OK" or g != exp_ev:
+                    good = False
+                    res.add_violation("block text (class of C03_block_text_events): the events of back-end %s are not the events of the "
+                                      "tree the text denotes" % bk, dict(input=text[:2000], codepoints=code, case=case[:600], backend=bk),
+                                      got=";".join(g)[-600:] + "|" + fin, expected=";".join(exp_ev)[-600:])
+                    break
+            me, mf = strip_line(bt_model[j]) if j in bt_model else (exp_ev, "OK")
+            if mf != "OK" or me != exp_ev:
+                res.add_tie_break("block text: the model pipeline contradicts C03_block_text_events (extraction or driver out of step)",
+                                  case=text[:300], model=";".join(me)[-300:] + "|" + mf)
+            if good:
+                bt_ok += 1
+                if len(exp_ev) >= 9:
+                    res.nontrivial.add(text)
+        res.coverage["block_text"] = dict(nodes=len(bts), tokens_and_events_agree=bt_ok, over_long_key_rejected=bt_rej,
+                                          with_indentless_sequence=sum(1 for f in bts if any(g.kind == "I" for g in bt_walk(f))),
+                                          model_pipeline_runs=len(bt_small),
+                                          deepest=bdeepest, longest_text=blongest)
     res.known += sorted(kf)
     rule = ("(a) random abstract node trees (scalars in 5 styles, aliases, block/flow sequences and mappings, left-out nodes, anchors, "
             "tags, complex keys, 1-3 documents) rendered by a renderer written from the YAML 1.2.2 productions under random layout "
@@ -1746,7 +2041,14 @@ def check_C03(tier, seed):
             "(c) random layout trees (and random streams of documents with directives) through the extracted tokens_of / events_of / "
             "stream_toks / stream_events / parse_tokens; (d) random nodes of the text sub-language of the scanner theorems "
             "(coq/Spec/FlowText.v; also nesting up to the flow-level limit, words around the 127-character chunk of the plain-scalar "
-            "loop, lines longer than the simple-key limit): the implementation's tokens (hx tokens) and events must be the extracted "
-            "tokens_of (lt f) / events_of (lt f), the text must be the extracted render; non-trivial = distinct input texts "
+            "loop, lines longer than the simple-key limit, keys of 1000..2100 characters as single pairs of flow sequences and as keys "
+            "of flow mappings): the implementation's tokens (hx tokens) and events must be the extracted "
+            "tokens_of (lt f) / events_of (lt f), the text must be the extracted render; a node that is outside the class only because "
+            "a single-pair key of a flow sequence is longer than 1024 characters (fwf = false, fgram = true) must be REJECTED by the "
+            "scanner, both back-ends and the model at the ':' behind the first such key; (e) random nodes of the BLOCK text "
+            "sub-language of the scanner theorems (coq/Spec/BlockText.v: nested block sequences / mappings of one-word scalars, compact "
+            "and next-line placement, indentless sequences below a key, indentation steps 1..6, nesting chains up to the block-nesting limit 255, keys up to 1024 "
+            "characters): tokens and events of the implementation must be the extracted tokens_of (blt n) / events_of (blt n), the "
+            "text the extracted brender; a key of more than 1024 characters (bwf_root = false) must be rejected; non-trivial = distinct input texts "
             "whose event list has >= 9 events and which agreed with the expectation")
     return res.finish(proof, rule)
